@@ -70,21 +70,13 @@ def seekPtStr : SeekPt → String
 
 def describe : Block → String
   | .streaminfo s => s!"S:{s.minBlock}:{s.maxBlock}:{s.minFrame}:{s.maxFrame}:{s.rate}:{s.channels}:{s.bps}:{s.total}:" ++
-      (if s.md5.all (· == 0) then "none" else bytesToHex s.md5)
+      (if !s.md5Some then "none" else bytesToHex s.md5)
   | .padding n => s!"P:{n}"
   | .application id d => "A:" ++ bytesToHex (beBytes 4 id) ++ ":" ++ hxs d
   | .seektable pts => "T:" ++ (if pts.isEmpty then "-" else ",".intercalate (pts.map seekPtStr))
   | .vorbis v fs => "V:" ++ hxs v ++ ":" ++ (if fs.isEmpty then "-" else ",".intercalate (fs.map hxs))
   | .picture p => s!"I:{p.ptype}:{hxs p.mime}:{hxs p.desc}:{p.width}:{p.height}:{p.depth}:{p.colors}:{hxs p.data}"
   | .cuesheet c => cueLiteral c
-
-/-- `Contiguous<MAX_POINTS, SeekPoint>` -/
-def seekContiguous : Option SeekPt → List SeekPt → Bool
-  | _, [] => true
-  | none, p :: r => seekContiguous (some p) r
-  | some (.defined s _ _), .defined s2 b2 l2 :: r => decide (s2 > s) && seekContiguous (some (.defined s2 b2 l2)) r
-  | some .placeholder, .defined .. :: _ => false
-  | some _, .placeholder :: r => seekContiguous (some .placeholder) r
 
 /-- block literal -> value; `none` = not constructible -/
 def parseBlock (profile : Profile) (lit : String) : Option Block :=
@@ -95,7 +87,8 @@ def parseBlock (profile : Profile) (lit : String) : Option Block :=
     let md5 := if p.getD 9 "" == "none" then List.replicate 16 0 else hx (p.getD 9 "")
     if ch % 256 == 0 || bps == 0 || bps > 32 || md5.length != 16 then none else
     some (.streaminfo { minBlock := nat (p.getD 1 "") % 65536, maxBlock := nat (p.getD 2 "") % 65536, minFrame := nat (p.getD 3 "") % 2 ^ 32,
-                        maxFrame := nat (p.getD 4 "") % 2 ^ 32, rate := nat (p.getD 5 "") % 2 ^ 32, channels := ch % 256, bps, total := nat (p.getD 8 ""), md5 })
+                        maxFrame := nat (p.getD 4 "") % 2 ^ 32, rate := nat (p.getD 5 "") % 2 ^ 32, channels := ch % 256, bps, total := nat (p.getD 8 ""), md5,
+                        md5Some := p.getD 9 "" != "none" })
   | "P" => if nat (p.getD 1 "") > maxBlockSize then none else some (.padding (nat (p.getD 1 "")))
   | "A" => some (.application (beNat (hx (p.getD 1 ""))) (hx (p.getD 2 "")))
   | "T" =>
@@ -103,7 +96,7 @@ def parseBlock (profile : Profile) (lit : String) : Option Block :=
       if s == "X" then SeekPt.placeholder else
         let q := s.splitOn "."
         SeekPt.defined (nat (q.getD 0 "")) (nat (q.getD 1 "")) (nat (q.getD 2 "") % 65536)
-    if pts.length ≤ seekTableMaxPoints && seekContiguous none pts then some (.seektable pts) else none
+    if pts.length ≤ seekTableMaxPoints && seekContig none pts then some (.seektable pts) else none
   | "V" =>
     let v := hx (p.getD 1 "")
     let fs := if p.getD 2 "" == "-" || p.getD 2 "" == "" then [] else ((p.getD 2 "").splitOn ",").map hx
@@ -126,8 +119,9 @@ def parseBlock (profile : Profile) (lit : String) : Option Block :=
 
 def sizeStr (b : Block) : String :=
   match b.bytes with
-  | none => "none/none"
-  | some n => s!"{n}/" ++ (if n + 4 ≤ maxBlockSize then toString (n + 4) else "none")
+  | .ok (some n) => s!"{n}/" ++ (if n + 4 ≤ maxBlockSize then toString (n + 4) else "none")
+  | .ok none => "none/none"
+  | .error _ => "PANIC"
 
 def errTag : Fail → String
   | .err c => c
@@ -141,6 +135,7 @@ def opBlocksw (get : String → String) (profile : Profile) : String :=
   | none => "err Construct stage=construct"
   | some blocks =>
     let sizes := ",".intercalate (blocks.map sizeStr)
+    if blocks.any (fun b => match b.bytes with | .error _ => true | _ => false) then "panic size query" else
     match writeBlocks blocks with
     | .error (.panic s) => "panic " ++ s
     | .error e => s!"err {errTag e} stage=write sizes={sizes}"
